@@ -572,12 +572,16 @@ type formRun struct {
 
 // formCase runs one generated form through every path and the oracle.
 func formCase(c *ctx, sub uint64, bad bool, class string) {
-	r := c.r
 	g := &gen{r: common.NewRand(sub), bad: bad}
 	dup := g.r.Chance(1, 6)
 	fd := genFormDesc(g, dup)
 	ops := genOps(g, fd)
-	vline := fmt.Sprintf("val form.Data %d %s", sub, common.B(bad))
+	formEval(c, fmt.Sprintf("val form.Data %d %s", sub, common.B(bad)), fd, ops, dup, bad, class)
+}
+
+// formEval drives one form (description + Set operations) through every path.
+func formEval(c *ctx, vline string, fd formDesc, ops []setOp, dup, bad bool, class string) {
+	r := c.r
 	r.Line(vline, "-")
 	lines := []string{r.Prop + " " + vline}
 	r.Case(vline, true, class+"/form.Data")
@@ -915,4 +919,25 @@ func zeroFormCase(c *ctx) {
 			r.Fail("no-panic", "form.Data(zero)/"+name+"/"+panicClass(p.panicked), lines, name+" on the zero form.Data panicked: "+p.panicked)
 		}
 	}
+}
+
+// formWitnesses are minimal form interactions that once violated the property.
+var formWitnesses = []struct {
+	fd  formDesc
+	ops []setOp
+}{
+	// a required text-multi field without a value: Submit sliced with -1
+	{formDesc{typ: "form", fields: []fieldDesc{{typ: "text-multi", varName: "t", required: true}}}, nil},
+	// a text-multi value ending in a line break, and the empty value
+	{formDesc{typ: "form", fields: []fieldDesc{{typ: "text-multi", varName: "t"}}}, []setOp{{id: "t", kind: 's', s: "a\n"}}},
+	{formDesc{typ: "form", fields: []fieldDesc{{typ: "text-multi", varName: "t"}}}, []setOp{{id: "t", kind: 's', s: ""}}},
+	{formDesc{typ: "form", fields: []fieldDesc{{typ: "text-multi", varName: "t", values: []string{"l1", "l2"}}}}, []setOp{{id: "t", kind: 's', s: "a\r\nb"}}},
+}
+
+func formWitness(c *ctx, k int) {
+	if k < 0 || k >= len(formWitnesses) {
+		return
+	}
+	w := formWitnesses[k]
+	formEval(c, fmt.Sprintf("val form.Data %d 2", k), w.fd, w.ops, false, false, "corpus")
 }
